@@ -27,7 +27,7 @@ def run(ctx):
         rule=("non-trivial: instance_step cases with to > from; engine cases whose startup profile has at least 2 tokens; wait cases with at least 2 tokens and a busy caller; "
               "distinct = distinct case lines"),
         key_fn=key_fn,
-        translators=[("gofn-istep", "GoFnIstepGen.v")], bridge_files=["Gen/GoFnIstep_bridge.v"],
+        translators=[("gofn-istep", "GoFnIstepGen.v"), ("sched", "SchedGen.v")], bridge_files=["Gen/GoFnIstep_bridge.v", "Gen/StartProfile_bridge.v"],
         trusted=[
             "extraction: ExtrOcamlBasic only; OCaml driver ocaml/C12/main.ml + ocaml/common/conv.ml",
             "correspondence harness harness/cmd/hC12: real engine.Engine with a gun factory recording (InstanceID, bind instant), "
